@@ -14,7 +14,10 @@ def render_spec(E):
     a.append('route r1(S1, Void, %s)' % ('U1' if 'route_err' in E else 'Void'))
     if 'doc_route_on_route' in E:
         a.append('    "See also :route:`r4`."')
-    a += ['', 'route r3(S8, Void, Void)', '', 'route r4(S7, Void, Void)', '']
+    if 'io_wrapped' in E:
+        a += ['', 'route r3(Void, Map(String, S8), Void)', '', 'route r4(Void, List(Map(String, S7)), Void)', '']
+    else:
+        a += ['', 'route r3(S8, Void, Void)', '', 'route r4(S7, Void, Void)', '']
     a += ['struct S1',
           '    f %s' % ('S2' if 'f_direct' in E else 'Int32'),
           '    g %s' % ('List(S3)' if 'f_list' in E else 'Int32'),
@@ -41,7 +44,7 @@ def render_spec(E):
     if 'doc_route_on_type' in E:
         a.append('    "Returned by :route:`r3`."')
     a += ['    t1', '    t2 Int32', '']
-    b = ['namespace nsb', '', 'struct T1', '    z Int32', '', 'route q1(T1, Void, Void)', '']
+    b = ['namespace nsb', '', 'struct T1', '    z Int32', '', ('route q1(Void, List(T1)?, Void)' if 'io_wrapped' in E else 'route q1(T1, Void, Void)'), '']
     return [('nsa.stone', '\n'.join(a) + '\n'), ('nsb.stone', '\n'.join(b) + '\n')]
 
 
